@@ -5,6 +5,7 @@ CHECKS="${*:-$ID}"
 WT=/tmp/wt/$ID; OUT=/tmp/wt/out/$ID
 cd "$WT" || exit 2
 git checkout -q -- . ; git clean -fdq
+git checkout -q --detach "$(git -C /repo rev-parse HEAD)"
 git apply "$OUT/patch_$K.diff" || { echo "$ID/$K: patch does not apply"; exit 2; }
 T=$(PYTHONPATH=$WT/src /venv/bin/python -m pytest -q -p no:cacheprovider -x 2>&1 | tail -1)
 PYTHONPATH=$WT/src /venv/bin/python "$OUT/demo_$K.py" >/dev/null 2>&1; D1=$?
